@@ -82,10 +82,14 @@ func runC06Consume(c *core.Ctx) {
 				continue
 			}
 			arg := ci.Common().Args[0]
+			// The assigned bytes must be the result of reading r to EOF: io.ReadAll(r), the reader's own whole
+			// Bytes(), or the Bytes() of a buffer that r was drained into (ReadFrom / io.Copy) - never a truncation
+			// of those and never a reader other than r itself (e.g. a LimitReader around it).
 			sl := core.BackSlice(arg, core.SliceOpts{})
 			good := true
 			leaves := 0
 			var readAll *ssa.Call
+			drained := false
 			for w := range sl {
 				switch x := w.(type) {
 				case *ssa.Call:
@@ -94,15 +98,30 @@ func runC06Consume(c *core.Ctx) {
 					case core.IsPkgFunc(x, "io", "ReadAll") && core.Strip(x.Call.Args[0]) == reader:
 						readAll = x
 					case core.IsMethodNamed(x, "Bytes"):
-						// must be the reader itself, type-asserted
-						rs := core.BackSlice(core.Receiver(x), core.SliceOpts{})
-						if !rs[reader] {
+						recv := core.Receiver(x)
+						rs := core.BackSlice(recv, core.SliceOpts{})
+						if rs[reader] {
+							break // the reader itself, type-asserted to something with Bytes()
+						}
+						// a buffer that r was drained into
+						ok := false
+						for _, cj := range core.Calls(fn) {
+							if core.IsMethodNamed(cj, "ReadFrom") && len(core.Args(cj)) == 1 && core.Strip(core.Args(cj)[0]) == reader && sameBuffer(core.Receiver(cj), recv) {
+								ok = true
+							}
+							if core.IsPkgFunc(cj, "io", "Copy") && core.Strip(cj.Common().Args[1]) == reader && sameBuffer(cj.Common().Args[0], recv) {
+								ok = true
+							}
+						}
+						if ok {
+							drained = true
+						} else {
 							good = false
 						}
 					default:
 						good = false
 					}
-				case *ssa.Slice, *ssa.Parameter, *ssa.Alloc, *ssa.MakeSlice:
+				case *ssa.Slice:
 					good = false
 				case *ssa.Const:
 					if !x.IsNil() {
@@ -110,7 +129,8 @@ func runC06Consume(c *core.Ctx) {
 					}
 				}
 			}
-			c.Check(good && leaves > 0 && readAll != nil, key+"#whole-input", p.Pos(ci.Pos()), "AssignBytes receives exactly io.ReadAll(r) or the reader's whole Bytes()", "AssignBytes receives something other than the whole input (io.ReadAll(r) / r.Bytes())")
+			_ = drained
+			c.Check(good && leaves > 0, key+"#whole-input", p.Pos(ci.Pos()), "AssignBytes receives the whole input read from r to EOF", "AssignBytes receives something other than the whole content of the reader (a truncation, or bytes read through a limiting wrapper)")
 			if readAll != nil {
 				nilEdges := core.EdgesWhere(fn, func(r core.Rel) bool { return r.Op == token.EQL && extractOf(r.X, readAll, 1) && core.IsNilConst(r.Y) })
 				path, reached := core.Reach(fn, readAll, isTarget(ci), nilEdges, nil)
@@ -120,4 +140,22 @@ func runC06Consume(c *core.Ctx) {
 	} else {
 		c.Undecided("codec/raw.Decode", "-", "raw decoder not found")
 	}
+}
+
+// sameBuffer: both values denote the same buffer object (same SSA value after stripping conversions, or share a root call/alloc).
+func sameBuffer(a, b ssa.Value) bool {
+	a, b = core.Strip(a), core.Strip(b)
+	if a == b {
+		return true
+	}
+	ra := core.BackSlice(a, core.SliceOpts{Stores: true})
+	for w := range core.BackSlice(b, core.SliceOpts{Stores: true}) {
+		switch w.(type) {
+		case *ssa.Alloc, *ssa.Call:
+			if ra[w] {
+				return true
+			}
+		}
+	}
+	return false
 }
